@@ -1279,6 +1279,51 @@ int main(int argc, char** argv)
 			}
 			free(buf);
 		}
+		else if (op == "bbbits") // bbbits <nbits> <offset> <pseed> <srcoff>: a run of bits written at a bit offset (bitbuf_write_bits from a source that itself starts
+								 // at bit <srcoff> of its buffer is not offered by the API; reads are: bitbuf_read_bits at <offset>), then read back; prints a fingerprint of what was read
+		{
+			unsigned long nbits, offset, pseed;
+			is >> nbits >> offset >> pseed;
+			nbits %= 2049;
+			offset %= 64;
+			size_t cap = 300;
+			uint8_t* buf = (uint8_t*)malloc(cap);
+			uint8_t* src = (uint8_t*)malloc(cap);
+			uint8_t* dst = (uint8_t*)malloc(cap);
+			memset(dst, 0, cap);
+			for (size_t i = 0; i < cap; ++i)
+				src[i] = (uint8_t)((((pseed * 1103515245UL + 12345UL + i * 2654435761UL) & 0xFFFFFFFFUL) >> 16) & 0xFF);
+			struct bitbuf wr;
+			bitbuf_write_init(&wr, buf, cap);
+			for (unsigned i = 0; i < offset; ++i)
+				bitbuf_write_bit(&wr, (uint8_t)((pseed >> (i % 31)) & 1));
+			bool okw = bitbuf_write_bits(&wr, src, nbits);
+			bitbuf_write_bit(&wr, 1);
+			if (!okw)
+				emit("bb fail");
+			else
+			{
+				struct bitbuf rd;
+				rd.buffer = buf;
+				rd.size = wr.num;
+				rd.num = offset;
+				bool okr = bitbuf_read_bits(&rd, dst, nbits);
+				uint8_t tail = 0;
+				bool okt = okr && bitbuf_read_bit(&rd, &tail);
+				if (!okr || !okt)
+					emit("bb readfail %lu", nbits);
+				else
+				{
+					size_t nb = (nbits + 7) / 8;
+					if (nbits % 8 && nb)
+						dst[nb - 1] &= (uint8_t)((1u << (nbits % 8)) - 1);
+					emit("bb ok %lu %016llx %u %zu", nbits, (unsigned long long)fnv64(dst, nb), (unsigned)tail, rd.num - offset);
+				}
+			}
+			free(buf);
+			free(src);
+			free(dst);
+		}
 		else if (op == "nodes") // number of live bunch-node blocks (C16 quiescence)
 		{
 			size_t cnt = 0;
